@@ -225,6 +225,9 @@ pub fn budget(prop: &str, tier: &str) -> (u64, usize) {
         "C16" => crate::gen::c16_grid_size() * (crate::gen::C16_SCHEDULES_PER_POINT + 1),
         "C04" => 90_000,
         "C05" => 80_000,
+        // the widest alphabet of source kinds and operations; the torn-read defect S10 needs
+        // about 10^5 runs of it
+        "C11" => 200_000,
         _ => 100_000,
     };
     let env_runs = std::env::var("VERIF_RUNS").ok().and_then(|v| v.parse().ok());
